@@ -71,6 +71,16 @@ def scenario(ctx, lines, pend):
     for k in range(nmem):
         kind = gk if gk != 'mixed' else rng.choice(['fits', 'jwst'])
         m, info = mk_member(rng, base_pt, kind, spread)
+        # members may come in already aligned once or twice (live object or re-wrapped WCS)
+        hist = []
+        unit_m = m.tanp_center_pixel_scale if scenes.is_jwst(m) else 1.0
+        for _h in range(rng.choice([0, 0, 1, 2])):
+            if rng.random() < 0.4:
+                hist.append(('W',))
+            hist.append(('S', c02.gen_corr(rng, unit_m, big=False)))
+        if hist:
+            m, _b = corrsim.apply_real(m, hist)
+        info = dict(info, prior=[h[0] for h in hist])
         members.append(m)
         infos.append(info)
     # reference plane
@@ -95,11 +105,14 @@ def scenario(ctx, lines, pend):
         sc = 1.0 if fitgeom == 'rshift' else 1 + (rng.uniform(-0.05, 0.05) if big else rng.uniform(-1e-3, 1e-3))
         G = Aff(sc * np.array([[math.cos(a), -math.sin(a)], [math.sin(a), math.cos(a)]]), G.t)
     # catalogs
+    empty_member = rng.randrange(1, nmem) if (nmem >= 2 and rng.random() < 0.3) else -1
     cats, pix, allr = [], [], []
     for m in members:
         nx, ny = scenes.image_size(m)
         n = rng.choice([3, 5, 10, 25])
-        px, py = c01.nondegenerate_pixels(rng, nx, ny, n)
+        if nmem >= 2 and len(cats) == empty_member:
+            n = 0           # a chip with no detections still belongs to the group and moves with it
+        px, py = c01.nondegenerate_pixels(rng, nx, ny, n) if n else (np.zeros(0), np.zeros(0))
         a_k = np.array(plane.world_to_tanp(*m.det_to_world(px, py)), dtype=float)
         r_k = G(a_k)
         pix.append((px, py))
@@ -108,7 +121,7 @@ def scenario(ctx, lines, pend):
     R = np.hstack(allr)
     ra, dec = plane.tanp_to_world(R[0], R[1])
     refcat = Table([np.asarray(ra, dtype=float), np.asarray(dec, dtype=float)], names=['RA', 'DEC'])
-    case = {'nmem': nmem, 'kinds': [i['kind'] for i in infos], 'plane': pk,
+    case = {'empty_member': empty_member, 'nmem': nmem, 'kinds': [i['kind'] for i in infos], 'plane': pk,
             'plane_kind': 'jwst' if scenes.is_jwst(plane) else 'fits', 'fitgeom': fitgeom, 'spread': spread,
             'G': [G.M.tolist(), G.t.tolist()], 'big': big, 'infos': infos}
     ctx.case(case, nontrivial=nmem >= 2 or pk != 'default', branch='%s:%s:n%d' % (gk, pk, nmem))
@@ -148,7 +161,7 @@ def scenario(ctx, lines, pend):
         b = plane_bound(plane, old, csz, rho_rad, spread == 0.0)
         px, py = pix[k]
         landed = np.array(plane.world_to_tanp(*nw.det_to_world(px, py)), dtype=float)
-        err = float(np.max(np.hypot(*(landed - allr[k]))))
+        err = float(np.max(np.hypot(*(landed - allr[k])))) if len(px) else 0.0
         # with several members at different tangent points the fit itself absorbs first-order terms:
         # the landing bound is the sum over members
         bl = b * (2 + nmem)
